@@ -43,6 +43,14 @@ pub fn c02_runs(tier: Tier) -> Vec<(HistCfg, Caps)> {
                     cfg(m, 2, 4, b.clone(), vec![4, 2], obs.clone(), &format!("{}-d2", m.short())),
                     caps(tier, 8, 0),
                 ));
+                if !m.is_bq() {
+                    // a dimension that reaches the SIMD kernels with one 8-lane group left over
+                    // (32 + 8): end-to-end distances over a kernel remainder path
+                    runs.push((
+                        cfg(m, 40, 4, build_menu(&[Some(2)], &[Some(1)], 1), vec![4, 0], obs.clone(), &format!("{}-d40", m.short())),
+                        caps(tier, 8, 0),
+                    ));
+                }
                 if m.is_bq() {
                     // real (non-degenerate) quantised planes, with and without padding bits
                     for d in [64usize, 60] {
@@ -64,7 +72,7 @@ pub fn c02_runs(tier: Tier) -> Vec<(HistCfg, Caps)> {
                     ));
                 }
                 let bw = build_menu(&[Some(2)], &[Some(1), Some(2)], 1);
-                for d in [17usize, 33, 65] {
+                for d in [17usize, 33, 40, 65, 72] {
                     runs.push((
                         cfg(m, d, 5, bw.clone(), vec![5, 1], obs.clone(), &format!("{}-d{d}-wide", m.short())),
                         caps(tier, 0, 30),
@@ -81,6 +89,8 @@ pub fn c02(tier: Tier) -> i32 {
     report.assume("LMDB/heed, roaring, rayon; lattice coordinates in -2..2 (distance accuracy over other values is C11's subject)");
     report.assume("states whose forest is invalid are C01's findings and are not judged here (counter skipped_invalid_forest)");
     crate::props::run_hist_runs(&mut report, "C02", &c02_runs(tier));
+    // C01's histories include any available_memory: bulk scenarios under a memory hint, judged by exact search
+    crate::props::bulk_props::run_into(&mut report, "C02", crate::props::bulk_props::c01_memory_scenarios(tier), if tier == Tier::Quick { 20 } else { 300 }, true);
     report.cov("oracle", "for every built state: by_item for every stored id and by_vector for every lattice vector (stored or not), count in {0,1,2,n-1,n,n+1}, search_k = usize::MAX, judged against an f64 brute force over the reference model (length, distinctness, stored, reported distance within tolerance, order, no omitted item closer than a returned one)");
     report.finish()
 }
@@ -257,6 +267,13 @@ pub fn c03_runs(tier: Tier) -> Vec<(HistCfg, Caps)> {
                     cfg(m, 2, 5, wide.clone(), vec![5, 0], obs.clone(), &format!("{}-d2-buckets", m.short())),
                     caps(tier, 7, 0),
                 ));
+                if m == Metric::Euclidean || m == Metric::Cosine {
+                    // 32 + 8 dimensions: true distances over a SIMD kernel remainder path
+                    runs.push((
+                        cfg(m, 40, 4, wide.clone(), vec![4, 0], obs.clone(), &format!("{}-d40-buckets", m.short())),
+                        caps(tier, 7, 0),
+                    ));
+                }
                 if m == Metric::BqCosine || m == Metric::BqEuclidean {
                     // budget-limited search over real quantised planes
                     runs.push((
@@ -274,6 +291,14 @@ pub fn c03_runs(tier: Tier) -> Vec<(HistCfg, Caps)> {
                         cfg(m, d, 5, b.clone(), vec![5, 1], obs.clone(), &format!("{}-d{d}", m.short())),
                         caps(tier, 0, 80),
                     ));
+                }
+                if !m.is_bq() {
+                    for d in [40usize, 72] {
+                        runs.push((
+                            cfg(m, d, 4, b.clone(), vec![4, 0], obs.clone(), &format!("{}-d{d}", m.short())),
+                            caps(tier, 0, 30),
+                        ));
+                    }
                 }
             }
         }
